@@ -344,7 +344,7 @@ def rename(node, name):
     return node
 
 
-def observe_src_impl(nodes, parts, syntax, single_client):
+def observe_src_impl(nodes, parts, syntax, single_client, again=None):
     w = World('impl', syntax)
     b = {k: ({a: w.build(v) for a, v in parts[k].items()}
              if isinstance(parts[k], dict) else None) for k in parts}
@@ -366,6 +366,16 @@ def observe_src_impl(nodes, parts, syntax, single_client):
             client = tuple(clients)
         r = t(client, b['mapping'], **b['kw'])
         out = ['ok', r if isinstance(r, str) else repr(r)]
+        if again is not None:
+            # the same template object called once more without the
+            # keyword arguments: what one call was given is gone
+            try:
+                r2 = t(client, b['mapping'])
+                again.append(['ok', r2 if isinstance(r2, str) else repr(r2)])
+            except CaseTimeout:
+                raise
+            except Exception as e:
+                again.append(['exc', type(e).__name__])
     except CaseTimeout:
         raise
     except Exception as e:
@@ -595,8 +605,19 @@ def run_(case):
     if case['fam'] == 'src':
         nodes, parts = build_src(case)
         single = case['shape'] in ('single', 'falsy')
-        io, ilog, src = observe_src_impl(nodes, parts, case['syntax'], single)
+        again = [] if ('kw' in case['sources'] and case['kind'] == 'plain'
+                       and len(case['sources']) > 1) else None
+        io, ilog, src = observe_src_impl(nodes, parts, case['syntax'], single,
+                                         again)
         ro, rlog, unspec = observe_src_ref(nodes, parts)
+        if again:
+            p2 = dict(parts, kw={})
+            r2, _l2, u2 = observe_src_ref(nodes, p2)
+            if not u2 and again[0] != r2:
+                res.violate('resolution', 'src:%s:%s:second-call' % (
+                    case['kind'], case['form']),
+                    {'source': src, 'second call without keywords': again[0],
+                     'model': r2})
         n_def = len(case['sources']) + (case['shape'] in (
             'both', 'repeat', 'mid-first', 'fourth'))
         tag = 'src:%s:%s' % (case['kind'], case['form'])
